@@ -486,11 +486,27 @@ var C02 = &sqrun.Check{ID: "C02", QuickBudget: 60, ThoroughBudget: 600,
 				checkHist(k, Hist{Ops: ops})
 			})
 		}
+		// (7) size family: every length of data line, comment line, ID and type up to maxSize
+		maxSize := 300
+		if c.Thorough {
+			maxSize = 4500
+		}
+		k.parallel(maxSize+1, func(n int) {
+			x := strings.Repeat("x", n)
+			for _, sp := range []MsgSpec{
+				{Calls: []Call{{"data", []string{x}}, {"data", []string{"second"}}}},
+				{Calls: []Call{{"comment", []string{x}}, {"data", []string{"second", x}}}, ID: "i", HasID: true},
+				{Calls: []Call{{"data", []string{"d"}}}, ID: x, HasID: true, Type: "t", HasType: true},
+				{Calls: []Call{{"data", []string{"d"}}}, ID: "i", HasID: true, Type: x, HasType: true},
+			} {
+				checkSequence(k, []MsgSpec{plain, sp, plain})
+			}
+		})
 		cov := ev.Coverage{"evaluations": k.cases.Load(), "distinct_nontrivial": k.nontriv.Load(), "exhaustive": k.exhaustive(),
-			"long_streams": len(longs), "one_message_histories": hists, "history_depth": hdepth,
+			"size_family_max_length": maxSize, "long_streams": len(longs), "one_message_histories": hists, "history_depth": hdepth,
 			"payload_strings": len(payloads), "field_strings": len(fields), "call_alphabet": nc, "message_set": ns,
 			"samples": []any{MsgSpec{Calls: []Call{{"data", []string{"a\rb", "id: z"}}}, ID: "x", HasID: true}, []MsgSpec{set[3], set[10]}},
-			"rule":    fmt.Sprintf("(1) every string of <= %d tokens over %q as data, comment, ID and type (where NewID/NewType accept it), alone and between plain neighbours; (2) every program of <= %d calls over a %d-call alphabet (AppendData with one/two arguments, AppendComment) on a 12-string representative set; (3) ID x Type over all %d single-line strings of <= 2 tokens x 7 Retry values; (4) every ordered pair (thorough: triple) of %d representative messages, concatenated; (5) every representative message and ordered pair followed by 0..%d padding bytes and %d plain messages (streams long enough to make the parser's buffer fill, shift and grow), read whole, byte by byte and in 61-byte chunks, all events compared after the stream has ended; (6) every history of <= %d operations from %q on ONE Message value, the result encoded between two plain neighbours. Each wire text is decoded by the strict WHATWG reference and by sse.Read and compared with the expectation computed from the API calls (independent line splitter). Non-trivial = the expectation contains at least one event.", L, c02Tokens, depth, nc, nf, ns, maxPad, fill, hdepth, histOps)}
+			"rule":    fmt.Sprintf("(1) every string of <= %d tokens over %q as data, comment, ID and type (where NewID/NewType accept it), alone and between plain neighbours; (2) every program of <= %d calls over a %d-call alphabet (AppendData with one/two arguments, AppendComment) on a 12-string representative set; (3) ID x Type over all %d single-line strings of <= 2 tokens x 7 Retry values; (4) every ordered pair (thorough: triple) of %d representative messages, concatenated; (5) every representative message and ordered pair followed by 0..%d padding bytes and %d plain messages (streams long enough to make the parser's buffer fill, shift and grow), read whole, byte by byte and in 61-byte chunks, all events compared after the stream has ended; (6) every history of <= %d operations from %q on ONE Message value, the result encoded between two plain neighbours; (7) data line, comment line, ID and type of every length 0..%d. Each wire text is decoded by the strict WHATWG reference and by sse.Read and compared with the expectation computed from the API calls (independent line splitter). Non-trivial = the expectation contains at least one event.", L, c02Tokens, depth, nc, nf, ns, maxPad, fill, hdepth, histOps, maxSize)}
 		return &sqrun.Outcome{Level: "exploration", Coverage: cov, Assumptions: []string{
 			"an ID containing NUL is encoded as given and ignored by conforming parsers (the rest of the event must be intact); this is the protocol's rule, not counted as 'ID altered'",
 			"go-sse's own parser dispatches an event also for a message that only sets an ID or a type (documented adaptation); the strict reference only for messages with data",
